@@ -123,9 +123,38 @@ def run(tier):
                 for pos, sql, exp, adj, kfid in grid(d, ident_quotes(d)):
                     cases.append({"sql": sql, "dialect": d, "want": []})
                     meta.append((pos, exp, adj, kfid))
+    # dotted names given as one string: the public Table model and the string arguments of vertica's swap_partitions_between_tables
+    api_names = []
+    for case, q in itertools.product(CASES, [None, '"', "`"]):
+        for nparts in (1, 2, 3):
+            api_names.append([spell(b, case, q) for b in ["dbx", "scy", "tbz"][3 - nparts:]])
+    for parts in api_names:
+        if all(p[0] not in "\"`" for p in parts):
+            name = ".".join(parts)
+            T = norm_table(parts)
+            for d in ("vertica", "non-validating"):
+                cases.append({"sql": f"select swap_partitions_between_tables('{name}', 1, 2, 'tgt_t')", "dialect": d, "want": []})
+                meta.append(("string_argument", {"source": [T], "target": ["<default>.tgt_t"], "pairs": []}, None, None))
     run_.need("spellings_compared")
+    run_.need("model_api_names_checked")
     with Pool() as pool:
         recs = pool.map("vlib.observe:run_case", cases, timeout=180)
+        ast, ares = pool.call(0, "vlib.names:table_api", {"names": [".".join(p) for p in api_names]}, timeout=120)
+    if run_.pool_status(ast, ares, "table_api"):
+        for parts, r in zip(api_names, ares):
+            name = ".".join(parts)
+            run_.case(evidence.sha(("api", name)), nontrivial=True)
+            run_.observe("model_api_names_checked")
+            if "exc" in r:
+                run_.judge({"table_name": name}, "model_api_raised", r, kf_id=None)
+                continue
+            T = norm_table(parts)
+            Tb = (".".join(norm_part(p).lower() for p in parts[:-1]) or "<default>") + "." + norm_part(parts[-1])
+            if not (r["eq"] and r["hash_eq"] and r["col_eq"] and r["col_hash_eq"] and r["in_set"]):
+                run_.judge({"table_name": name}, "equal_entities_do_not_hash_equally", r, kf_id=None)
+            if r["str"] != T:
+                run_.judge({"table_name": name}, "model_api_name_not_as_predicted", {"expected": T, "observed": r["str"]}, kf_id="KF-16b" if r["str"] == Tb and Tb != T else
+                           "KF-16d" if len(parts) == 3 and parts[0][0] in "\"`" and r["str"] == parts[0][1:-1] + parts[0][0] + "." + parts[0][0] + parts[1][1:-1] + "." + norm_part(parts[2]) else None)
     positions = {}
     rejected = {}
     for case, (pos, exp, adj, kfid), (s, r) in zip(cases, meta, recs):
